@@ -99,6 +99,9 @@ pub enum Step {
     NextBack,
     Len,
     SizeHint,
+    /// `Iterator::nth` / `DoubleEndedIterator::nth_back` (what `skip`, `step_by` and their `rev()` forms call)
+    Nth(u8),
+    NthBack(u8),
     /// mutable iterators: overwrite the next / last element with a fresh item
     NextSet(u32),
     NextBackSet(u32),
@@ -113,6 +116,13 @@ pub enum End {
     Count,
     /// consume everything that is left, front to back
     Exhaust,
+    /// `last()`
+    Last,
+    /// everything that is left through `fold` / `rfold`
+    Fold,
+    RFold,
+    /// everything that is left through `rev()` (if `rev`), then `skip(skip)`, then `step_by(step)` (if > 1)
+    Adapt { rev: bool, skip: u8, step: u8 },
 }
 
 #[derive(Clone, Debug, PartialEq)]
@@ -121,6 +131,7 @@ pub enum Obs {
     Len(usize),
     Hint(usize, Option<usize>),
     Count(usize),
+    Items(Vec<Item>),
     NoRange,
     NotMutable,
 }
@@ -162,6 +173,8 @@ pub fn run_sched<'a>(mut it: Box<dyn It + 'a>, sched: &[Step], end: End) -> Vec<
                 let (a, b) = it.size_hint();
                 out.push(Obs::Hint(a, b))
             }
+            Step::Nth(n) => out.push(Obs::Item(it.nth(n as usize))),
+            Step::NthBack(n) => out.push(Obs::Item(it.nth_back(n as usize))),
             Step::NextSet(k) => match it.next_set(fresh_item_static(k)) {
                 Some(o) => out.push(Obs::Item(o)),
                 None => out.push(Obs::NotMutable),
@@ -181,6 +194,10 @@ pub fn run_sched<'a>(mut it: Box<dyn It + 'a>, sched: &[Step], end: End) -> Vec<
         End::Drop => drop(it),
         End::Forget => std::mem::forget(it),
         End::Count => out.push(Obs::Count(it.count())),
+        End::Last => out.push(Obs::Item(it.last())),
+        End::Fold => out.push(Obs::Items(it.fold_all())),
+        End::RFold => out.push(Obs::Items(it.rfold_all())),
+        End::Adapt { rev, skip, step } => out.push(Obs::Items(it.adapt_all(rev, skip as usize, step as usize))),
         End::Exhaust => {
             while let Some(x) = it.next() {
                 out.push(Obs::Item(Some(x)));
@@ -189,6 +206,19 @@ pub fn run_sched<'a>(mut it: Box<dyn It + 'a>, sched: &[Step], end: End) -> Vec<
         }
     }
     out
+}
+
+/// Every item an observation trace shows as yielded, in order.
+fn yielded(trace: &[Obs]) -> Vec<Item> {
+    let mut v = Vec::new();
+    for o in trace {
+        match o {
+            Obs::Item(Some(x)) => v.push(*x),
+            Obs::Items(xs) => v.extend(xs.iter().copied()),
+            _ => {}
+        }
+    }
+    v
 }
 
 thread_local! {
@@ -308,6 +338,14 @@ fn gen_sched(rng: &mut Rng, mutable: bool, allow_panic: bool, fresh: &mut u32) -
             Step::Len
         } else if c < 4 {
             Step::SizeHint
+        } else if c == 4 {
+            // jumps: mostly short, sometimes past the end
+            let n = *rng.pick(&[0u8, 1, 1, 2, 3, 7, 40]);
+            if back {
+                Step::NthBack(n)
+            } else {
+                Step::Nth(n)
+            }
         } else if mutable && c < 12 {
             *fresh += 1;
             if back {
@@ -348,8 +386,15 @@ fn gen_range(rng: &mut Rng) -> RangeGen {
 
 fn gen_end(rng: &mut Rng, leak_ok: bool) -> End {
     match rng.below(10) {
-        0..=4 => End::Drop,
-        5..=6 => End::Exhaust,
+        0..=3 => End::Drop,
+        4 => End::Exhaust,
+        5 => match rng.below(4) {
+            0 => End::Last,
+            1 => End::Fold,
+            2 => End::RFold,
+            _ => End::Exhaust,
+        },
+        6 => End::Adapt { rev: rng.chance(2, 3), skip: *rng.pick(&[0u8, 0, 1, 2, 5, 30]), step: *rng.pick(&[1u8, 1, 2, 3, 7]) },
         7 => End::Count,
         _ => {
             if leak_ok {
@@ -613,6 +658,9 @@ impl World for C18 {
                 "drain-contract-panic",
                 "len-0",
                 "raw-hues",
+                "nth_back-jump-inside",
+                "rev-then-skip-or-step_by",
+                "last-fold-rfold",
             ],
             expected_faults: vec!["cancel", "leak", "unwind@source", "unwind@loop-body", "contract-panic"],
             time_note: "palette has no clock; simulated time is reported as steps_executed",
@@ -682,6 +730,7 @@ impl<'c, 'a> Exec<'c, 'a> {
         match (a, b) {
             (Obs::Item(Some(x)), Obs::Item(Some(y))) => self.same(x, y),
             (Obs::Item(None), Obs::Item(None)) => true,
+            (Obs::Items(x), Obs::Items(y)) => x.len() == y.len() && x.iter().zip(y.iter()).all(|(p, q)| self.same(p, q)),
             _ => a == b,
         }
     }
@@ -702,6 +751,14 @@ impl<'c, 'a> Exec<'c, 'a> {
                 Obs::Len(n) => h.u64(3 + ((*n as u64) << 8)),
                 Obs::Hint(a, b) => h.u64(4 + ((*a as u64) << 8) + ((b.unwrap_or(usize::MAX) as u64) << 32)),
                 Obs::Count(n) => h.u64(5 + ((*n as u64) << 8)),
+                Obs::Items(xs) => {
+                    h.u64(8 + ((xs.len() as u64) << 8));
+                    for x in xs {
+                        for v in x {
+                            h.u64(v.to_bits() as u64);
+                        }
+                    }
+                }
                 Obs::NoRange => h.u64(6),
                 Obs::NotMutable => h.u64(7),
             }
@@ -1147,7 +1204,7 @@ impl<'c, 'a> Exec<'c, 'a> {
                         return None;
                     }
                 };
-                let range_len = s.iter().filter(|o| matches!(o, Obs::Item(Some(_)))).count();
+                let range_len = yielded(&s).len();
                 if outcome == "ok" {
                     if *end == End::Forget {
                         // leak: std leaves the amount lost unspecified. Demand equal
@@ -1226,8 +1283,8 @@ impl<'c, 'a> Exec<'c, 'a> {
                 self.note_middle(sched, len);
                 self.ctx.changed();
                 // rebuild from what the SUT yielded (collect), model from what the model yielded
-                let ys: Vec<Item> = s.iter().filter_map(|o| if let Obs::Item(Some(x)) = o { Some(*x) } else { None }).collect();
-                let ym: Vec<Item> = m.iter().filter_map(|o| if let Obs::Item(Some(x)) = o { Some(*x) } else { None }).collect();
+                let ys: Vec<Item> = yielded(&s);
+                let ym: Vec<Item> = yielded(&m);
                 let mut src = ys.into_iter();
                 self.sut = Some((d.collect)(&mut src));
                 self.model = ym;
@@ -1324,6 +1381,8 @@ impl<'c, 'a> Exec<'c, 'a> {
         match end {
             End::Forget => self.ctx.fired("leak"),
             End::Drop if sched_len > 0 => self.ctx.fired("cancel"),
+            End::Adapt { rev: true, skip, step } if skip > 0 || step > 1 => self.ctx.probe("rev-then-skip-or-step_by"),
+            End::Last | End::Fold | End::RFold => self.ctx.probe("last-fold-rfold"),
             _ => {}
         }
     }
@@ -1333,6 +1392,9 @@ impl<'c, 'a> Exec<'c, 'a> {
         let backs = sched.iter().filter(|s| matches!(s, Step::NextBack | Step::NextBackSet(_))).count();
         if fronts > 0 && backs > 0 && fronts + backs > len {
             self.ctx.probe("iter-met-in-middle");
+        }
+        if len > 1 && sched.iter().any(|s| matches!(s, Step::NthBack(n) if *n >= 1 && (*n as usize) < len)) {
+            self.ctx.probe("nth_back-jump-inside");
         }
     }
 }
